@@ -11,3 +11,13 @@ import SpoxModel.Props.C03
 #print axioms C03.valid_request_builds
 #print axioms C03.discover_all_arguments_spec
 #print axioms C03.discover_all_arguments_spec_checked
+#print axioms C03.generated_build_good
+#print axioms C03.build_statements_refine
+#print axioms C03.inputs_exact_stmts
+#print axioms C03.outputs_exact_stmts
+#print axioms C03.inputs_dropped_stmts
+#print axioms C03.missing_input_keyerror_stmts
+#print axioms C03.type_errors_stmts
+#print axioms C03.names_restored_stmts
+#print axioms C03.pinned_statements_counterexample
+#print axioms C03.arguments_of_main_graph
